@@ -246,6 +246,15 @@ End StreamPred.
 (* E. parts of toks_ok for the computed stream                          *)
 (* ------------------------------------------------------------------ *)
 
+(* (stated abstractly: tactics such as `apply filter_In in H` on a hypothesis mentioning the
+   generated table make Coq evaluate the table) *)
+Lemma in_get_extractors_ac : forall (table : list xrow) s low x,
+  In x (get_extractors_ac table s low) -> In x table.
+Proof.
+  intros table s low x Hx. unfold get_extractors_ac in Hx.
+  exact (proj1 (proj1 (filter_In _ _ _) Hx)).
+Qed.
+
 Definition ed_cands (t : tok) : list nat := match t_exact t with [] => t_var t | l => l end.
 
 (* the per-row condition (reflected on the generated table) *)
@@ -387,11 +396,12 @@ Theorem tokenize_text_toks_partial :
     (t_kind t = KCitation -> t_short t = false ->
        exists i, In i (match t_exact t with [] => t_var t | l => l end) /\ src_of_gen i <= 2).
 Proof.
-  intros Htab s k t Hk. unfold tokenize_text, candidates_text, extract_ac in Hk.
-  apply (tokenize_extract_toks_partial U (get_extractors_ac xtable s (lower_str lower1 s)) s
-           (nominative_by nominative_ids)) with (k := k); [|exact Hk].
-  intros x Hx. unfold get_extractors_ac in Hx. apply filter_In in Hx. destruct Hx as [Hx _].
-  rewrite forallb_forall in Htab. exact (Htab x Hx).
+  intros Htab s k t Hk.
+  assert (Hrows : forall x, In x (get_extractors_ac xtable s (lower_str lower1 s)) ->
+                            row_meta_ok x = true).
+  { intros x Hx. exact (proj1 (forallb_forall _ _) Htab x (in_get_extractors_ac _ _ _ _ Hx)). }
+  exact (tokenize_extract_toks_partial U (get_extractors_ac xtable s (lower_str lower1 s)) s
+           (nominative_by nominative_ids) Hrows k t Hk).
 Qed.
 
 (* ------------------------------------------------------------------ *)
@@ -495,10 +505,13 @@ Qed.
 Theorem tokenize_text_cits_nonempty :
   forallb row_nonnull xtable = true -> forall s, cits_nonempty (snd (tokenize_text s)).
 Proof.
-  intros Htab s. unfold tokenize_text, candidates_text, extract_ac.
-  apply cits_nonempty_of_table. intros x Hx. apply row_nonnull_spec.
-  unfold get_extractors_ac in Hx. apply filter_In in Hx. destruct Hx as [Hx _].
-  rewrite forallb_forall in Htab. exact (Htab x Hx).
+  intros Htab s.
+  assert (Hrows : forall x, In x (get_extractors_ac xtable s (lower_str lower1 s)) ->
+            forall r', In r' (group_body 1 (row_re (fst x))) -> 0 < minlen r').
+  { intros x Hx. apply row_nonnull_spec.
+    exact (proj1 (forallb_forall _ _) Htab x (in_get_extractors_ac _ _ _ _ Hx)). }
+  exact (cits_nonempty_of_table U (get_extractors_ac xtable s (lower_str lower1 s)) s
+           (nominative_by nominative_ids) Hrows).
 Qed.
 
 Print Assumptions refs_engine_ok.
